@@ -195,7 +195,7 @@ let () =
       let s0 = init_of m in
       if get m "mode" = "all" then
         let l = enum_all o s0 max in
-        "states=0 scheds=" ^ String.concat ";" (List.map sched_str l)
+        "states=0 scheds=" ^ String.concat ";" (List.rev (List.rev_map sched_str l))
       else
         let (l, n) = enum_edges o s0 max in
-        Printf.sprintf "states=%d scheds=%s" n (String.concat ";" (List.map sched_str l)))
+        Printf.sprintf "states=%d scheds=%s" n (String.concat ";" (List.rev (List.rev_map sched_str l))))
